@@ -6,6 +6,7 @@ import Mathlib.Data.List.Perm.Basic
 import Mathlib.Tactic.Linarith
 import Mathlib.Algebra.Order.Field.Rat
 import Mathlib.Data.List.Forall2
+import Mathlib.Tactic.Ring
 /-!
 # Lemmas for C12: order statistics are monotone
 
@@ -809,5 +810,316 @@ theorem add_iso (n : Nat) (d : Dep) (hd : d ≠ .unknown) {X X' Y Y' : PB}
     exact public_of_facts n (n * n) (sq_cases n) (independentOp_facts _ n wX wY) (independentOp_facts _ n wX' wY')
       (iso_independentOp _ hull_add wX.valid wY.valid hX hY)
   | unknown => exact absurd rfl hd
+
+/-! ## stacking: the generalised inverse of the cumulated mass is monotone in the focal endpoints -/
+
+/-- mass of the rows whose value is `≤ c` -/
+def massLE : List (Rat × Rat) → Rat → Rat
+  | [], _ => 0
+  | (v, w) :: r, c => (if v ≤ c then w else 0) + massLE r c
+
+def total : List (Rat × Rat) → Rat
+  | [] => 0
+  | (_, w) :: r => w + total r
+
+def NonNegW (l : List (Rat × Rat)) : Prop := ∀ x ∈ l, 0 ≤ x.2
+
+theorem massLE_nonneg {l : List (Rat × Rat)} (h : NonNegW l) (c : Rat) : 0 ≤ massLE l c := by
+  induction l with
+  | nil => simp [massLE]
+  | cons x r ih =>
+    obtain ⟨v, w⟩ := x
+    have hw : 0 ≤ w := h (v, w) (by simp)
+    have := ih (fun y hy => h y (by simp [hy]))
+    simp only [massLE]
+    split <;> linarith
+
+theorem massLE_le_total {l : List (Rat × Rat)} (h : NonNegW l) (c : Rat) : massLE l c ≤ total l := by
+  induction l with
+  | nil => simp [massLE, total]
+  | cons x r ih =>
+    obtain ⟨v, w⟩ := x
+    have hw : 0 ≤ w := h (v, w) (by simp)
+    have := ih (fun y hy => h y (by simp [hy]))
+    simp only [massLE, total]
+    split <;> linarith
+
+theorem massLE_perm {l l' : List (Rat × Rat)} (h : l.Perm l') (c : Rat) : massLE l c = massLE l' c := by
+  induction h with
+  | nil => rfl
+  | cons x _ ih => obtain ⟨v, w⟩ := x; simp only [massLE, ih]
+  | swap x y l => obtain ⟨v, w⟩ := x; obtain ⟨v2, w2⟩ := y; simp only [massLE]; ring
+  | trans _ _ ih1 ih2 => rw [ih1, ih2]
+
+theorem total_perm {l l' : List (Rat × Rat)} (h : l.Perm l') : total l = total l' := by
+  induction h with
+  | nil => rfl
+  | cons x _ ih => obtain ⟨v, w⟩ := x; simp only [total, ih]
+  | swap x y l => obtain ⟨v, w⟩ := x; obtain ⟨v2, w2⟩ := y; simp only [total]; ring
+  | trans _ _ ih1 ih2 => rw [ih1, ih2]
+
+/-- rows sorted by value -/
+def SortedV (l : List (Rat × Rat)) : Prop := l.Pairwise (fun a b => a.1 ≤ b.1)
+
+theorem sortPairs_perm (l : List (Rat × Rat)) : (sortPairs l).Perm l := List.mergeSort_perm l _
+
+theorem sortPairs_sorted (l : List (Rat × Rat)) : SortedV (sortPairs l) := by
+  have := List.pairwise_mergeSort (le := fun a b : Rat × Rat => decide (a.1 ≤ b.1))
+    (fun a b c h1 h2 => by simp at h1 h2 ⊢; exact le_trans h1 h2)
+    (fun a b => by simp; exact le_total a.1 b.1) l
+  exact this.imp (fun h => by simpa using h)
+
+theorem firstReach_mem (l : List (Rat × Rat)) (acc p v : Rat) (h : firstReach (cumul l acc) p = some v) :
+    ∃ x ∈ l, x.1 = v := by
+  induction l generalizing acc with
+  | nil => simp [cumul, firstReach] at h
+  | cons x r ih =>
+    obtain ⟨v0, w0⟩ := x
+    simp only [cumul, firstReach] at h
+    split at h
+    · exact ⟨(v0, w0), by simp, by simpa using h⟩
+    · obtain ⟨y, hy, e⟩ := ih _ h
+      exact ⟨y, by simp [hy], e⟩
+
+/-- (A) the mass up to the returned value reaches the level -/
+theorem firstReach_reaches {l : List (Rat × Rat)} (hs : SortedV l) (hw : NonNegW l) (acc p v : Rat)
+    (h : firstReach (cumul l acc) p = some v) : p ≤ acc + massLE l v := by
+  induction l generalizing acc with
+  | nil => simp [cumul, firstReach] at h
+  | cons x r ih =>
+    obtain ⟨v0, w0⟩ := x
+    have hw0 : 0 ≤ w0 := hw (v0, w0) (by simp)
+    have hwr : NonNegW r := fun y hy => hw y (by simp [hy])
+    rw [SortedV, List.pairwise_cons] at hs
+    simp only [cumul, firstReach] at h
+    split at h
+    · rename_i hp
+      have e : v0 = v := by simpa using h
+      subst e
+      have := massLE_nonneg hwr v0
+      simp only [massLE, le_refl, if_true]
+      linarith
+    · have := ih hs.2 hwr _ h
+      obtain ⟨y, hy, e⟩ := firstReach_mem r _ p v h
+      have hv : v0 ≤ v := by rw [← e]; exact hs.1 y hy
+      simp only [massLE, hv, if_true]
+      linarith
+
+theorem massLE_zero_of_lt {l : List (Rat × Rat)} (c : Rat) (h : ∀ x ∈ l, c < x.1) : massLE l c = 0 := by
+  induction l with
+  | nil => rfl
+  | cons x r ih =>
+    obtain ⟨v, w⟩ := x
+    have hv : ¬ v ≤ c := not_le.mpr (h (v, w) (by simp))
+    simp only [massLE, hv, if_false, zero_add]
+    exact ih (fun y hy => h y (by simp [hy]))
+
+/-- (B) below the returned value the mass stays under the level -/
+theorem firstReach_minimal {l : List (Rat × Rat)} (hs : SortedV l) (hw : NonNegW l) (acc p v : Rat)
+    (hacc : acc < p) (h : firstReach (cumul l acc) p = some v) (c : Rat) (hc : c < v) : acc + massLE l c < p := by
+  induction l generalizing acc with
+  | nil => simp [cumul, firstReach] at h
+  | cons x r ih =>
+    obtain ⟨v0, w0⟩ := x
+    have hw0 : 0 ≤ w0 := hw (v0, w0) (by simp)
+    have hwr : NonNegW r := fun y hy => hw y (by simp [hy])
+    rw [SortedV, List.pairwise_cons] at hs
+    simp only [cumul, firstReach] at h
+    split at h
+    · have e : v0 = v := by simpa using h
+      subst e
+      have hz : massLE ((v0, w0) :: r) c = 0 := by
+        apply massLE_zero_of_lt
+        intro y hy
+        rcases List.mem_cons.mp hy with e | hy'
+        · subst e; exact hc
+        · exact lt_of_lt_of_le hc (hs.1 y hy')
+      rw [hz]; linarith
+    · rename_i hp
+      have := ih hs.2 hwr (acc + w0) (not_le.mp hp) h
+      simp only [massLE]
+      split <;> linarith
+
+/-- (C) no row reaches the level only if the whole mass stays below it, and conversely -/
+theorem firstReach_none {l : List (Rat × Rat)} (acc p : Rat) (h : firstReach (cumul l acc) p = none) :
+    acc + total l < p ∨ l = [] := by
+  induction l generalizing acc with
+  | nil => exact Or.inr rfl
+  | cons x r ih =>
+    obtain ⟨v0, w0⟩ := x
+    simp only [cumul, firstReach] at h
+    split at h
+    · simp at h
+    · rename_i hp
+      left
+      rcases ih _ h with h' | h'
+      · simp only [total]; linarith
+      · subst h'; simp only [total]; linarith [not_le.mp hp]
+
+theorem firstReach_none_of_total {l : List (Rat × Rat)} (hw : NonNegW l) (acc p : Rat) (h : acc + total l < p) :
+    firstReach (cumul l acc) p = none := by
+  induction l generalizing acc with
+  | nil => simp [cumul, firstReach]
+  | cons x r ih =>
+    obtain ⟨v0, w0⟩ := x
+    have hw0 : 0 ≤ w0 := hw (v0, w0) (by simp)
+    have hwr : NonNegW r := fun y hy => hw y (by simp [hy])
+    simp only [total] at h
+    have ht : 0 ≤ total r := by
+      have := massLE_le_total hwr 0; have := massLE_nonneg hwr 0; linarith
+    have hp : ¬ p ≤ acc + w0 := by linarith
+    simp only [cumul, firstReach, hp, if_false]
+    exact ih hwr _ (by linarith)
+
+/-! ### the rows `(value, weight)` of two nested lists of values with the same weights -/
+
+theorem massLE_zip_mono {vals vals' wts : List Rat} (h : LE vals vals') (hw : ∀ w ∈ wts, 0 ≤ w) (c : Rat) :
+    massLE (vals'.zip wts) c ≤ massLE (vals.zip wts) c := by
+  induction h generalizing wts with
+  | nil => simp [massLE]
+  | @cons a b s t hab _ ih =>
+    cases wts with
+    | nil => simp [massLE]
+    | cons w ws =>
+      have hw0 : 0 ≤ w := hw w (by simp)
+      have := ih (wts := ws) (fun x hx => hw x (List.mem_cons_of_mem _ hx))
+      simp only [List.zip_cons_cons, massLE]
+      by_cases hb : b ≤ c
+      · have ha : a ≤ c := le_trans hab hb
+        simp only [ha, hb, if_true]; linarith
+      · simp only [hb, if_false]
+        split <;> linarith
+
+theorem total_zip_eq {vals vals' wts : List Rat} (h : LE vals vals') : total (vals'.zip wts) = total (vals.zip wts) := by
+  induction h generalizing wts with
+  | nil => simp [total]
+  | cons _ _ ih =>
+    cases wts with
+    | nil => simp [total]
+    | cons w ws => simp only [List.zip_cons_cons, total, ih]
+
+theorem nonNegW_zip {vals wts : List Rat} (hw : ∀ w ∈ wts, 0 ≤ w) : NonNegW (vals.zip wts) := by
+  intro x hx
+  exact hw x.2 (List.of_mem_zip hx).2
+
+theorem lastVal_cumul (l : List (Rat × Rat)) (acc : Rat) : lastVal (cumul l acc) = lastVal l := by
+  induction l generalizing acc with
+  | nil => rfl
+  | cons x r ih =>
+    obtain ⟨v0, w0⟩ := x
+    cases r with
+    | nil => simp [cumul, lastVal]
+    | cons y r' =>
+      obtain ⟨v1, w1⟩ := y
+      have := ih (acc + w0)
+      simp only [cumul, lastVal] at this ⊢
+      exact this
+
+theorem lastVal_ge {l : List (Rat × Rat)} (hs : SortedV l) : ∀ x ∈ l, x.1 ≤ lastVal l := by
+  induction l with
+  | nil => simp
+  | cons x r ih =>
+    rw [SortedV, List.pairwise_cons] at hs
+    cases r with
+    | nil => intro y hy; simp at hy; subst hy; simp [lastVal]
+    | cons z r' =>
+      intro y hy
+      have hz := ih hs.2
+      simp only [lastVal]
+      rcases List.mem_cons.mp hy with e | hy'
+      · subst e; exact le_trans (hs.1 z (by simp)) (hz z (by simp))
+      · exact hz y hy'
+
+theorem lastVal_mem {l : List (Rat × Rat)} (hne : l ≠ []) : ∃ x ∈ l, x.1 = lastVal l := by
+  induction l with
+  | nil => exact absurd rfl hne
+  | cons x r ih =>
+    cases r with
+    | nil => exact ⟨x, by simp, by simp [lastVal]⟩
+    | cons z r' =>
+      obtain ⟨y, hy, e⟩ := ih (by simp)
+      exact ⟨y, by simp [hy], by simpa [lastVal] using e⟩
+
+/-- every row of the narrower list has a row of the wider list with a value at least as large -/
+theorem zip_value_dominated {vals vals' wts : List Rat} (h : LE vals vals') :
+    ∀ x ∈ vals.zip wts, ∃ y ∈ vals'.zip wts, x.1 ≤ y.1 := by
+  induction h generalizing wts with
+  | nil => simp
+  | @cons a b s t hab _ ih =>
+    cases wts with
+    | nil => simp
+    | cons w ws =>
+      intro x hx
+      simp only [List.zip_cons_cons, List.mem_cons] at hx
+      rcases hx with e | hx
+      · subst e; exact ⟨(b, w), by simp, hab⟩
+      · obtain ⟨y, hy, hle⟩ := ih x hx
+        exact ⟨y, by simp [hy], hle⟩
+
+/-- one level of `stacking` -/
+def levelValue (vals wts : List Rat) (p : Rat) : Rat :=
+  let sc := cumul (sortPairs (vals.zip wts)) 0
+  match firstReach sc p with | some v => v | none => lastVal sc
+
+theorem stackBound_eq (g vals wts : List Rat) : stackBound g vals wts = g.map (levelValue vals wts) := rfl
+
+/-- **the generalised inverse is monotone in the values** (`geninv_antitone` of the design): same weights `≥ 0`,
+pointwise larger values, any level `p > 0` -/
+theorem levelValue_mono {vals vals' wts : List Rat} (h : LE vals vals') (hw : ∀ w ∈ wts, 0 ≤ w) (p : Rat) (hp : 0 < p) :
+    levelValue vals wts p ≤ levelValue vals' wts p := by
+  have hs := sortPairs_sorted (vals.zip wts)
+  have hs' := sortPairs_sorted (vals'.zip wts)
+  have hpm := sortPairs_perm (vals.zip wts)
+  have hpm' := sortPairs_perm (vals'.zip wts)
+  have nn : NonNegW (sortPairs (vals.zip wts)) := fun x hx => nonNegW_zip hw x (hpm.mem_iff.mp hx)
+  have nn' : NonNegW (sortPairs (vals'.zip wts)) := fun x hx => nonNegW_zip hw x (hpm'.mem_iff.mp hx)
+  have htot : total (sortPairs (vals'.zip wts)) = total (sortPairs (vals.zip wts)) := by
+    rw [total_perm hpm', total_perm hpm, total_zip_eq h]
+  unfold levelValue
+  simp only
+  cases h' : firstReach (cumul (sortPairs (vals'.zip wts)) 0) p with
+  | some v' =>
+    have hA := firstReach_reaches hs' nn' 0 p v' h'
+    rw [massLE_perm hpm'] at hA
+    have hA2 : p ≤ massLE (sortPairs (vals.zip wts)) v' := by
+      rw [massLE_perm hpm]; have := massLE_zip_mono h hw v'; linarith
+    cases h0 : firstReach (cumul (sortPairs (vals.zip wts)) 0) p with
+    | some v =>
+      simp only
+      by_contra hlt
+      have := firstReach_minimal hs nn 0 p v hp h0 v' (not_le.mp hlt)
+      linarith
+    | none =>
+      exfalso
+      rcases firstReach_none 0 p h0 with hn | hn
+      · have := massLE_le_total nn v'; linarith
+      · rw [hn] at hA2; simp [massLE] at hA2; linarith
+  | none =>
+    have h0 : firstReach (cumul (sortPairs (vals.zip wts)) 0) p = none := by
+      rcases firstReach_none 0 p h' with hn | hn
+      · exact firstReach_none_of_total nn 0 p (by rw [← htot]; exact hn)
+      · have : total (sortPairs (vals.zip wts)) = 0 := by rw [← htot, hn]; rfl
+        exact firstReach_none_of_total nn 0 p (by rw [this]; simpa using hp)
+    simp only [h0, lastVal_cumul]
+    by_cases hne : sortPairs (vals.zip wts) = []
+    · have e1 : vals.zip wts = [] := by
+        have := hpm.length_eq; rw [hne] at this; exact List.length_eq_zero_iff.mp this.symm
+      have e2 : vals'.zip wts = [] := by
+        have hl : (vals'.zip wts).length = (vals.zip wts).length := by
+          simp [List.length_zip, h.length_eq]
+        rw [e1] at hl; exact List.length_eq_zero_iff.mp hl
+      have e3 : sortPairs (vals'.zip wts) = [] := by
+        have hl' : (sortPairs (vals'.zip wts)).length = 0 := by rw [hpm'.length_eq, e2]; rfl
+        exact List.length_eq_zero_iff.mp hl'
+      rw [hne, e3]
+    · obtain ⟨x, hx, ex⟩ := lastVal_mem hne
+      obtain ⟨y, hy, hle⟩ := zip_value_dominated (wts := wts) h x (hpm.mem_iff.mp hx)
+      rw [← ex]
+      exact le_trans hle (lastVal_ge hs' y (hpm'.mem_iff.mpr hy))
+
+theorem stackBound_mono {g vals vals' wts : List Rat} (h : LE vals vals') (hw : ∀ w ∈ wts, 0 ≤ w)
+    (hg : ∀ p ∈ g, 0 < p) : LE (stackBound g vals wts) (stackBound g vals' wts) := by
+  rw [stackBound_eq, stackBound_eq]
+  exact LE_map_of_le g _ _ (fun p hp => levelValue_mono h hw p (hg p hp))
 
 end Pun.Iso
